@@ -66,7 +66,17 @@ def main():
         elif wt:
             sh(['git', '-C', '/repo', 'worktree', 'remove', '--force', wt])
             shutil.rmtree(wt, ignore_errors=True)
-    json.dump(results, open(rp, 'w'), indent=1)
+    # several runs may go on at the same time (builders re-checking their own properties): merge under a lock
+    import fcntl
+    with open(rp + '.lock', 'w') as lk:
+        fcntl.flock(lk, fcntl.LOCK_EX)
+        cur = json.load(open(rp)) if os.path.exists(rp) else {}
+        for sid in ids:
+            if sid in results:
+                cur[sid] = results[sid]
+        tmp = rp + '.tmp%d' % os.getpid()
+        json.dump(cur, open(tmp, 'w'), indent=1)
+        os.replace(tmp, rp)
 
 
 if __name__ == '__main__':
